@@ -119,9 +119,18 @@ def gen_recipes(rng, n):
             out.append({'kind': 'vlookup', 'lv': C.jenc(lv), 'table': C.jenc(table), 'col': col, 'rl': C.jenc(rl)})
         elif r < 0.5:
             out.append({'kind': 'match', 'lv': C.jenc(lv), 'arr': C.jenc([[k] for k in ks]), 'mt': rng.choice([0, 0, 1, 1, -1])})
-        elif r < 0.62:
+        elif r < 0.56:
             out.append({'kind': 'xmatch', 'lv': C.jenc(lv), 'arr': C.jenc([[k] for k in ks]), 'mm': 0,
                         'sm': rng.choice([1, 1, 1, -1])})
+        elif r < 0.62:
+            # binary search modes on strictly sorted integer keys; the looked-up key is often the FIRST or the LAST row
+            n = rng.randint(1, 7)
+            keys = sorted(rng.sample(range(1, 40), n))
+            sm = rng.choice([2, -2])
+            if sm == -2:
+                keys = keys[::-1]
+            lv2 = rng.choice([keys[0], keys[-1], rng.choice(keys), rng.choice(keys), 0, 41, keys[0] + 1])
+            out.append({'kind': 'xmatch', 'lv': lv2, 'arr': [[k] for k in keys], 'mm': rng.choice([0, 0, 0, 1, -1]), 'sm': sm})
         elif r < 0.8:
             h, w = rng.randint(1, 5), rng.randint(1, 4)
             area = [[100 * i + j for j in range(w)] for i in range(h)]
